@@ -2,6 +2,12 @@
   C14 — Raw bytes become a structure only when aligned, padded and size-consistent.
   Property theorems only; helper lemmas live in Mb2/Lemmas.
 -/
+import Mb2.Props.FnsAlign
+import Mb2.Props.FnsBytesRef
+import Mb2.Props.FnsTagHdr
+import Mb2.Props.FnsHtHdr
+import Mb2.Props.FnsBiHdr
+import Mb2.Props.FnsHbHdr
 import Mb2.Spec
 import Mb2.Lemmas.Arith
 import Mb2.Lemmas.Bits
